@@ -737,6 +737,9 @@ func (view *View) Offset(ctx context.Context, scope *ReferenceScope, clause pars
 		for i := range newSet {
 			view.RecordSet[i] = newSet[i]
 		}
+		if view.sortValuesInEachRecord != nil {
+			view.sortValuesInEachRecord = view.sortValuesInEachRecord[view.offset:]
+		}
 	}
 	return nil
 }
